@@ -468,7 +468,15 @@ def run(ctx):
     if not prepare_scratch(ctx):
         return
     ports = Ports(ctx.seed)
-    scen = build_scenarios(ctx, ports)
+    if ctx.replay:
+        # re-run exactly the recorded scenario (fresh ports, same nodes and steps)
+        rp = json.load(open(ctx.replay))["replay"]
+        sp = rp["spec"]
+        n = len(sp["nodes"])
+        scen = [(rp.get("scenario", "replay"), {"kind": sp["kind"], "name": "default", "nodes": sp["nodes"], "topology": None,
+                                                "ports": ports.pool(3 * n + 6), "steps": sp["steps"], "limits": LIMITS})]
+    else:
+        scen = build_scenarios(ctx, ports)
     per_timeout = 420 if thorough else 150
     t0 = time.time()
     with ThreadPoolExecutor(max_workers=4 if thorough else 4) as ex:
